@@ -1087,9 +1087,12 @@ class Interp:
                 if r is not NOTIMPL:
                     return r
             memo = getattr(fn, "memo", None)
-            if memo is not None and all(self.concrete(a) for a in args) and all(self.concrete(v) for v in kwargs.values()):
+            # lru_cache keys its entries by == / hash of the arguments: instances of builtin subclasses (e.g. the datetime field type) are looked up by
+            # their builtin value, so two EQUAL arguments share an entry even when they are different objects
+            kargs = [a.base if (isinstance(a, PObj) and a.has_base and self.concrete(a.base) and not isinstance(a.base, (list, dict, set))) else a for a in args]
+            if memo is not None and all(self.concrete(a) for a in kargs) and all(self.concrete(v) for v in kwargs.values()):
                 try:
-                    key = (tuple(args), tuple(sorted(kwargs.items())))
+                    key = (tuple(kargs), tuple(sorted(kwargs.items())))
                     hash(key)
                 except TypeError:
                     key = None
